@@ -145,7 +145,9 @@ func ifaceVal(name string) interface{} {
 	case "ptr":
 		return &ArgNode{N: 8, Next: &ArgNode{N: 9}}
 	case "nilptr":
-		return (*ArgStruct)(nil)
+		// a typed nil pointer held in an interface: gob cannot encode it, so the run may be
+		// rejected - but it must never arrive as a different value (an untyped nil)
+		return (*ArgNode)(nil)
 	case "strings":
 		return []string{"x", "", "z"}
 	case "map":
@@ -220,6 +222,13 @@ func runC16e2e(t *vf.T, pool *sessionPool, c c16args, conf sessConf) {
 		return
 	}
 	sig := "args exec=" + conf.Kind
+	if err != nil && (c.I == "nilptr" || c.J == "nilptr") {
+		atomic.AddInt32(&ls.failedRuns, 1)
+		pool.drop(conf)
+		t.Count("typed_nil_in_interface_rejected", 1)
+		t.Nontrivial("")
+		return
+	}
 	if err != nil {
 		atomic.AddInt32(&ls.failedRuns, 1)
 		t.Violate(sig+" run-failed iface="+c.I+"/"+c.J, fmt.Sprintf("Run with encodable arguments failed: %v", err))
@@ -265,6 +274,11 @@ func runC16codec(t *vf.T, c c16args) {
 	i, j := ifaceVal(c.I), ifaceVal(c.J)
 	inv := exec.VerifMakeInvocation(ArgFunc, c.A, c.S, c.F, c.Xs, c.M, c.St, c.P, i, j, nil)
 	enc, err := inv.Encode()
+	if err != nil && (c.I == "nilptr" || c.J == "nilptr") {
+		t.Count("typed_nil_in_interface_rejected", 1)
+		t.Nontrivial("")
+		return
+	}
 	if err != nil {
 		t.Violate("codec encode-error", err.Error())
 		return
@@ -492,6 +506,22 @@ func runC16(r *vf.Runner) {
 			conf = localP4
 		}
 		r.Case(map[string]any{"kind": "e2e", "args": c, "conf": conf}, func(t *vf.T) { runC16e2e(t, pool, c, conf) })
+	}
+	// a typed nil pointer in an interface-typed parameter, alone and next to other values
+	for k, other := range []string{"nil", "int", "ptr", "nilptr"} {
+		for _, first := range []bool{true, false} {
+			c := genC16args(vf.NewRand(uint64(77 + k)))
+			c.I, c.J = "nilptr", other
+			if !first {
+				c.I, c.J = other, "nilptr"
+			}
+			c.R = k%2 == 0
+			r.Case(map[string]any{"kind": "codec", "args": c}, func(t *vf.T) { runC16codec(t, c) })
+			for _, conf := range []sessConf{bm2, localP4} {
+				conf := conf
+				r.Case(map[string]any{"kind": "e2e", "args": c, "conf": conf}, func(t *vf.T) { runC16e2e(t, pool, c, conf) })
+			}
+		}
 	}
 	for _, u := range []struct {
 		name string
